@@ -1242,6 +1242,12 @@ impl Sched {
         g.threads[me].api_stack.iter().rev().find(|r| r.in_closure).map(|r| r.blocking_seq.clone()).unwrap_or_default()
     }
 
+    pub fn api_closure_acquired(&self) -> Vec<(Lid, bool)> {
+        let me = my_tid().expect("api_closure_acquired outside simulated thread");
+        let g = self.lock();
+        g.threads[me].api_stack.iter().rev().find(|r| r.in_closure).map(|r| r.acquired.clone()).unwrap_or_default()
+    }
+
     pub fn held(&self) -> Vec<(Lid, bool)> {
         let me = my_tid().expect("held outside simulated thread");
         self.lock().held_by(me)
